@@ -233,14 +233,21 @@ def prim_val_coq(p, x):
 
 
 def addr_coq(a):
+    from ipv8.messaging.interfaces.udp.endpoint import DomainAddress, UDPv4Address, UDPv6Address
     host, port = a[0], a[1]
+    if isinstance(a, DomainAddress):
+        return "(ADom %s %d)" % (zl(host.encode()), port)
+    if isinstance(a, UDPv4Address):
+        return "(A4 %s %d)" % (zl(socket.inet_pton(socket.AF_INET, host)), port)
+    if isinstance(a, UDPv6Address):
+        return "(A6 %s %d)" % (zl(socket.inet_pton(socket.AF_INET6, host)), port)
     try:
         return "(A4 %s %d)" % (zl(socket.inet_pton(socket.AF_INET, host)), port)
-    except OSError:
+    except (OSError, ValueError):
         pass
     try:
         return "(A6 %s %d)" % (zl(socket.inet_pton(socket.AF_INET6, host)), port)
-    except OSError:
+    except (OSError, ValueError):
         pass
     return "(ADom %s %d)" % (zl(host.encode()), port)
 
